@@ -17,6 +17,9 @@ class C02(Prop):
     lean_module = "RxModel.Props.C02"
     extra_modules = ("RxModel.Props.C02T", "RxModel.Props.C02C", "RxModel.Props.C02M", "RxModel.Props.C02S")
     design_ref = "DESIGN.md §6 C02"
+    # translator tie (DESIGN II.7): src/scheduler.rs itself — TaskHandle's two Subscription impls and the poll functions of
+    # Remote / OnceTask / FutureTask / RepeatTask, regenerated from the compiler-expanded source on every run
+    tie_modules = {"RxModel.GenTie.Scheduler": []}
     rule = ("the C01 case population with `unsub` injected at every position of the event script, followed by "
             "the rest of the script and extra events on every hot input; plus linear chains with every scheduler-using "
             "operator (delay, observe_on, subscribe_on, delay_subscription, debounce, throttle, buffer_with_time, "
@@ -133,6 +136,42 @@ class C02(Prop):
             for c in cs[: cap if tier == "quick" else cap * 4]:
                 c.meta = {"kind": "multicast-" + name}
                 out.append(c)
+        # merge_all with a finite limit: a queued inner that completes INSIDE its own subscription is started from a
+        # finishing inner's `complete`, a long-lived inner waits behind it (and is started re-entrantly); then the
+        # merged stream is unsubscribed and the long-lived inner emits again (seed C02-7: its subscription had been
+        # dropped from the teardown list by the hand-over)
+        from . import c05 as m5
+        for L in (1, 2, 3):
+            for ncold in (1, 2, 3):
+                for nlate in (1, 2):
+                    for outer_c in (False, True):
+                        for fl in ("local", "threads"):
+                            inners = [m5.hot(j) for j in range(L)]
+                            inners += [m5.cold(L + i, (i + ncold) % 3, "c") for i in range(ncold)]
+                            inners += [m5.hot(L + j) for j in range(nlate)]
+                            evs = [["outer", ["o", str(k)]] for k in range(len(inners))]
+                            if outer_c:
+                                evs.append(["outer", "c"])
+                            evs += m5.hot_timeline(0, 1, "c")                      # frees a slot: the hand-over chain runs
+                            evs += m5.hot_timeline(L, 1, None)                     # the late hot inner delivers
+                            evs.append(["unsub"])
+                            for j in range(L + nlate):
+                                evs += m5.hot_timeline(j, 1, None, base=70)        # nothing may arrive any more
+                            c = m5.mk_case(L, inners, evs, fl, kind="handover")
+                            c.meta = {"kind": "multicast-c05-handover"}
+                            out.append(c)
+        rng5 = random.Random(seed + 205)
+        for i in range(1500 if tier == "quick" else 15000):
+            c = m5.PROP._random_case(rng5, wide=(i % 6 == 0))
+            evs = [e for e in c.events if e[0] != "unsub"]
+            nsubj = 1 + max([int(e[1]) for e in evs if e[0] == "inner"] + [0])
+            cut = rng5.randint(max(1, len(evs) // 2), len(evs))
+            tail = []
+            for j in range(nsubj):
+                tail += m5.hot_timeline(j, 1, None, base=80)
+            c.events = evs[:cut] + [["unsub"]] + evs[cut:] + tail
+            c.meta = {"kind": "multicast-c05-late-unsub"}
+            out.append(c)
         return out
 
     def _multicast_oracle(self, case, lines):
